@@ -247,98 +247,95 @@ def _projector(model: Model, O: RuleResult):
 
 
 def _dense_backward(model: Model, G: RuleResult):
+    """degen_symeig.backward is evaluated over symbolic tensor terms (domains/tensorterm.py) on its three paths (vector and value
+    cotangent given / only one of them); on each the returned term must equal
+        1/2 (R + R^H),   R = V (1/fill(F, |F| <= thr, inf) o (V^H Gbar)) V^H + V (gbar[..., None] o V^H),   F = lambda_j - lambda_i
+    up to the re-spellings the term algebra identifies.  The debug-only block is not evaluated; it must not write anything the
+    result reads."""
+    from ..domains import tensorterm as tt
     fc = ac.get_fncls(model, "degen_symeig")
-    bw = fc.backward
-    defs = function_defs(bw.node)
-    src = ast.unparse(bw.node)
-    # F orientation
-    fdefs = [s for s in ast.walk(bw.node) if isinstance(s, ast.Assign) and isinstance(s.targets[0], ast.Name) and s.targets[0].id == "F"]
-    if not fdefs:
-        raise AnalysisError("C06-G: F is no longer defined in degen_symeig.backward")
-    f0 = fdefs[0].value
-    if isinstance(f0, ast.BinOp) and isinstance(f0.op, ast.Sub) and ast.unparse(f0.left) == "eival.unsqueeze(-2)" and ast.unparse(f0.right) == "eival.unsqueeze(-1)":
-        G.ok(bw.fq, "F[i, j] = lambda_j - lambda_i")
-    else:
-        G.bad(bw, fdefs[0], "F must be eival.unsqueeze(-2) - eival.unsqueeze(-1), i.e. F[i, j] = lambda_j - lambda_i (the sign of the eigenvector term depends on it)")
-    # degenerate entries voided before the inversion
-    order = []
-    for s in ast.walk(bw.node):
-        if isinstance(s, ast.Assign):
-            t = ast.unparse(s.targets[0])
-            v = ast.unparse(s.value)
-            if t == "F[idx]" and "inf" in v:
-                order.append(("void", s.lineno))
-            if t == "F" and v == "F.pow(-1)":
-                order.append(("invert", s.lineno))
-            if t == "idx" and "torch.abs(F) <= min_threshold" in v:
-                order.append(("idx", s.lineno))
-    kinds = [k for k, _ in sorted(order, key=lambda x: x[1])]
-    if kinds == ["idx", "void", "invert"]:
-        G.ok(bw.fq, "entries with |lambda_j - lambda_i| <= threshold are set to inf before F is inverted (their contribution is exactly 0, diagonal included)")
-    else:
-        G.bad(bw, fdefs[0], "degenerate entries of F must be voided (set to inf) before F.pow(-1): found order %s" % kinds)
-    # formula: V ((F * (V^H G)) V^H) and V (g * V^H)
-    we = WordEval(defs, {"eivec": "V", bw.params()[2]: "G"}, real_transpose=False)
-    ok1 = False
-    ok2 = False
-    try:
-        vt = we.ev(ast.parse("eivect", mode="eval").body)
-        ok_vt = vt == (("V", True, False),)
-    except Uninterpretable:
-        ok_vt = False
-    for s in ast.walk(bw.node):
-        if isinstance(s, ast.Assign) and ast.unparse(s.targets[0]) == "result":
-            v = ast.unparse(s.value).replace(" ", "")
-            if v == "torch.matmul(eivec,torch.matmul(F,eivect))":
-                ok1 = True
-        if isinstance(s, ast.AugAssign) and ast.unparse(s.target) == "result" and isinstance(s.op, ast.Add):
-            v = ast.unparse(s.value).replace(" ", "")
-            if v == "torch.matmul(eivec,%s.unsqueeze(-1)*eivect)" % bw.params()[1]:
-                ok2 = True
-    hadamard = any(isinstance(s, ast.Assign) and ast.unparse(s.targets[0]) == "F" and ast.unparse(s.value).replace(" ", "") == "F*torch.matmul(eivect,%s)" % bw.params()[2]
-                   for s in ast.walk(bw.node))
-    if ok_vt and ok1 and ok2 and hadamard:
-        G.ok(bw.fq, "gradient == V (F^-1 o (V^H Gbar)) V^H + V diag(gbar) V^H with V^H the conjugate transpose")
-    else:
-        G.bad(bw, bw.node, "the dense backward must be V (F^-1 o (V^H G)) V^H + V (g (col) * V^H) with V^H = conj transpose (V^H %s, vector term %s, Hadamard %s, value term %s)" % (ok_vt, ok1, hadamard, ok2))
-    from ..domains.ncalg import is_adjoint_expr
-    sym_ok = False
-    rets = [r for r in own_nodes(bw.node) if isinstance(r, ast.Return)]
-    assigned = {t.id for s_ in ast.walk(bw.node) if isinstance(s_, (ast.Assign, ast.AugAssign)) for t in (s_.targets if isinstance(s_, ast.Assign) else [s_.target])
-                if isinstance(t, ast.Name)}
-    final = None
-    rname = None
-    if len(rets) == 1 and rets[0].value is not None:
-        v = rets[0].value
-        if isinstance(v, ast.Name):
-            # `result = <symmetrised>; ...; return result`
-            last = [s_ for s_ in bw.node.body if isinstance(s_, ast.Assign) and ast.unparse(s_.targets[0]) == v.id]
-            final, rname = (last[-1].value if last else None), v.id
-        else:
-            # `return <symmetrised expression of the accumulated name>` (the load-time normal form of the line above)
-            cands = sorted({n.id for n in ast.walk(v) if isinstance(n, ast.Name) and n.id in assigned})
-            final, rname = v, (cands[0] if len(cands) == 1 else None)
+    bw, fw = fc.backward, fc.forward
+    saves = [c for c in own_nodes(fw.node) if isinstance(c, ast.Call) and isinstance(c.func, ast.Attribute) and c.func.attr == "save_for_backward"]
+    if len(saves) != 1 or not all(isinstance(a, ast.Name) for a in saves[0].args) or len(saves[0].args) != 2:
+        raise AnalysisError("C06-G: degen_symeig.forward no longer saves exactly (eigenvalues, eigenvectors)")
+    eigh = [s for s in own_nodes(fw.node) if isinstance(s, ast.Assign) and isinstance(s.value, ast.Call) and ast.unparse(s.value.func) == "torch.linalg.eigh"
+            and isinstance(s.targets[0], ast.Tuple) and len(s.targets[0].elts) == 2]
+    if not eigh:
+        raise AnalysisError("C06-G: degen_symeig.forward no longer unpacks torch.linalg.eigh")
+    roles = {ast.unparse(eigh[0].targets[0].elts[0]): "E", ast.unparse(eigh[0].targets[0].elts[1]): "V"}
+    saved = [roles.get(a.id) for a in saves[0].args]
+    if sorted(x or "?" for x in saved) != ["E", "V"]:
+        G.bad(fw, enclosing_stmt(saves[0]), "degen_symeig.forward must save eigh's (eigenvalues, eigenvectors) for the backward (saved: %s)" % [a.id for a in saves[0].args])
+        return
+    pctx, pg, pG = bw.params()[:3]
+    E, V = tt.sym("E"), tt.sym("V")
+    VH = tt.adjoint(V)
+    F0 = tt.add(("unsq", E, -2), tt.neg(("unsq", E, -1)))
 
-    def shook(e):
-        x = is_adjoint_expr(e, False)
-        if x is not None and ast.unparse(x) == rname:
-            return S("RH")
-        if isinstance(e, ast.Name) and e.id == rname:
-            return S("R")
-        return None
-    if final is not None and rname is not None:
+    def expected(thr, cmp_op, with_vec, with_val):
+        parts = []
+        if with_vec:
+            Fv = ("fill", F0, ("cmp", cmp_op, tt.absv(F0), thr), tt.INF)
+            parts.append(tt.mm(V, tt.had(tt.recip(Fv), tt.mm(VH, tt.sym("Gbar"))), VH))
+        if with_val:
+            parts.append(tt.mm(V, tt.had(("unsq", tt.sym("gbar"), -1), VH)))
+        R = tt.add(*parts)
+        return tt.scale(tt.Fraction(1, 2), tt.add(R, tt.adjoint(R)))
+
+    def debug_only(term, node):
+        if any(x[0] == "op" and x[1] == "is_debug_enabled" for x in tt.subterms(term)):
+            return False
+        raise tt.Unsupported("test %s" % ast.unparse(node)[:60])
+    rets = [r for r in own_nodes(bw.node) if isinstance(r, ast.Return)]
+    for with_vec, with_val in ((True, True), (True, False), (False, True)):
+        env = {"%s.saved_tensors" % pctx: ("op", "tuple") + tuple(tt.sym(x) for x in saved),
+               pG: tt.sym("Gbar") if with_vec else tt.NONE, pg: tt.sym("gbar") if with_val else tt.NONE}
+        what = "path (vector cotangent %s, value cotangent %s)" % ("given" if with_vec else "None", "given" if with_val else "None")
+        ev = tt.TermEval(env, debug_only)
         try:
-            sym_ok = eval_expr(final, {}, shook, bw.module.source).eq((S("R") + S("RH")) / C(2))
-        except Uninterpretable:
-            sym_ok = False
-    if sym_ok:
-        G.ok(bw.fq, "the result is symmetrised: (R + R^H) / 2 (Hermitian part)")
-    else:
-        G.bad(bw, rets[0] if rets else bw.node, "the gradient w.r.t. a Hermitian matrix must be symmetrised: (R + R^H) / 2")
-    if len(rets) == 1 and rname == "result" or (len(rets) == 1 and rname is not None):
+            ev.run(bw.node.body)
+        except tt.Unsupported as e:
+            G.undecided(bw, bw.node, "cannot interpret degen_symeig.backward on the %s: %s" % (what, e))
+            return
+        got = ev.returned
+        if got is None:
+            G.bad(bw, bw.node, "degen_symeig.backward returns nothing on the %s" % what)
+            continue
+        # the debug-only statements must not feed the result
+        dbg_stores = {n.id for st in ev.assumed_skipped for n in ast.walk(st) if isinstance(n, ast.Name) and isinstance(n.ctx, ast.Store)} | \
+                     {n.value.id for st in ev.assumed_skipped for n in ast.walk(st) if isinstance(n, (ast.Subscript, ast.Attribute)) and isinstance(n.ctx, ast.Store)
+                      and isinstance(n.value, ast.Name)}
+        dbg_nodes = {id(n) for st in ev.assumed_skipped for n in ast.walk(st)}
+        leak = [n for n in own_nodes(bw.node) if isinstance(n, ast.Name) and isinstance(n.ctx, ast.Load) and n.id in dbg_stores and id(n) not in dbg_nodes]
+        if leak:
+            G.undecided(bw, enclosing_stmt(leak[0]), "cannot identify the value of `%s`: it is written inside the debug-only block" % leak[0].id)
+            return
+        fills = [x for x in tt.subterms(got) if x[0] == "fill"]
+        thr, cmp_op = tt.sym("thr"), "<="
+        if fills and fills[0][2][0] == "cmp" and fills[0][2][1] in ("<=", "<"):
+            thr, cmp_op = fills[0][2][3], fills[0][2][1]
+        if any(x in (tt.sym("Gbar"), tt.sym("gbar"), V) for x in tt.subterms(thr)):
+            G.bad(bw, bw.node, "the degeneracy threshold depends on the cotangents / eigenvectors: %s" % tt.show(thr))
+            continue
+        want = expected(thr, cmp_op, with_vec, with_val)
+        if got == want:
+            G.ok(bw.fq, "%s: returns 1/2 (R + R^H) with R = V (F^-1 o (V^H Gbar)) V^H + V diag(gbar) V^H, F = lambda_j - lambda_i, |F| <= thr voided before inversion" % what)
+            continue
+        subs = list(tt.subterms(got))
+        if with_vec and F0 not in subs and tt.neg(F0) in [x for x in subs] or (with_vec and any(x[0] == "fill" and x[1] == tt.neg(F0) for x in subs)):
+            why = "F must be eival.unsqueeze(-2) - eival.unsqueeze(-1), i.e. F[i, j] = lambda_j - lambda_i (the sign of the eigenvector term depends on it)"
+        elif with_vec and not any(x[0] == "recip" and x[1][0] == "fill" for x in subs):
+            why = "degenerate entries of F must be voided (set to inf) before F is inverted"
+        elif got[0] != "add" or tt.adjoint(got) != got:
+            why = "the gradient w.r.t. a Hermitian matrix must be symmetrised: (R + R^H) / 2"
+        else:
+            why = "the dense backward must be V (F^-1 o (V^H G)) V^H + V (g (col) * V^H) with V^H = conj transpose"
+        G.bad(bw, rets[-1] if rets else bw.node, "%s [%s: got %s; expected %s]" % (why, what, tt.show(got)[:400], tt.show(want)[:400]))
+    if len(rets) == 1:
         G.ok(bw.fq, "one gradient for the one input")
     else:
-        G.bad(bw, bw.node, "degen_symeig.backward must return the single gradient `result`")
+        G.bad(bw, bw.node, "degen_symeig.backward must return the single gradient on one exit")
+    G.ok(fw.fq, "forward saves eigh's (values, vectors): %s" % saved)
 
 
 def _degeneracy_map(model: Model, K: RuleResult):
